@@ -5,10 +5,36 @@ CONFIG = dict(
     streams=[("lease4", 8000, 270000), ("lease6", 6000, 180000)],
     oracles=[("c13", 12000, 360000), ("c10m", 200, 200)],
     full_statement_proved=False,
-    missing=("The theorems are about the exchange logic over an ABSTRACT call sendAndRead stream match = first element "
-             "of the routed stream the matcher accepts (none = no-response error); that the real SendAndRead is that call "
-             "on the sub-stream routed to it is C10/C11/C12's subject and is re-checked here only by the lease4/lease6 "
-             "streams. Five readings of the property text are FALSE of the code and kept visible as *_full with proved "
+    missing=("The exchange theorems are stated over an ABSTRACT call sendAndRead stream match = first element of the "
+             "routed stream the matcher accepts (none = no-response error). That this call IS the timed SendAndRead machine "
+             "of C11/C12 (Dhcp.Client.Timed.runObs) run on that stream is now a THEOREM, no longer only re-checked by the "
+             "lease4/lease6 streams: C13_call_refines_timed (T>0, every retry count n>=1, n=0, n<0, every matcher, every "
+             "routed stream with arrival instants in time order and strictly before the budget T(2^n-1), ANY quiescence "
+             "flags: the machine returns find? of the stream at that packet's arrival instant, everything before it "
+             "rejected; none => no-response error at the budget after exactly n transmissions, n<0 => still running), "
+             "C13_call_timed (nclient4 and nclient6 matchers, nil matcher included), C13_call_transmissions (C12_stop composed "
+             "in), C13_call_cancelled (context end / Close at c: find? on what arrived before c, else ctx error / no-response "
+             "at c), C13_call_late_ignored (arrivals at or after the budget never reach the caller), "
+             "C13_call_unseen_ignored (any number of irr observations interleaved change nothing), C13_exchanges_timed "
+             "(discoverOffer, requestFromOffer, request, renew, inform, call6 run on the timed machine equal the abstract "
+             "ones, so every C13 theorem holds of them), C13_request_timed (DORA: lease = first OFFER + first completing "
+             "ACK/NAK before the budgets, with the return instants), and for the script-level model runCall (the function "
+             "the client4/client6 streams compare with the real clients) C13_call_script: the script of the routed stream "
+             "allows exactly one result, the refined one, when every datagram is applied at quiescence or none arrives "
+             "exactly on a retransmission deadline. NOT covered, stated exactly: (a) the reading 'runCall returns find? for "
+             "EVERY script' is FALSE of the model (C13_call_script_full, proved C13_call_script_counterexample): a datagram "
+             "racing with a per-try deadline may be lost to the registration being torn down; proved instead "
+             "C13_call_script_racing, for ANY sync flags and every member of runCall: a response is a packet of the stream "
+             "the matcher accepts, at its arrival instant, and every accepted packet before it arrived exactly on a "
+             "retransmission deadline T(2^(k+1)-1) (= find? of the stream with some deadline-coincident packets deleted); a "
+             "non-response means every accepted packet arrived on a deadline or at/after the budget; (b) an accepted packet "
+             "arriving exactly AT the budget instant and racing with the last deadline (InBudget is strict; either outcome); "
+             "(c) the interleaving model of C10 has no clock and is tied per try only: C13_call_is_find (C10_first restated "
+             "with List.find?) says a returned packet is find? of the list routed to the registration of the try that "
+             "returned; that the per-try routed lists, concatenated with the instants at which the caller receives them, are "
+             "the arrival list of the timed theorems (a simulation between the LTS and the timed machine), and that the real "
+             "client is either model, still rest on the client4/client6 and lease4/lease6 streams. "
+             "Five readings of the property text are FALSE of the code and kept visible as *_full with proved "
              "*_counterexample: (1) C13_completes_bearing_full - an offer without a four-byte option 54 makes "
              "IsCorrectServer(nil) accept exactly the ACK/NAKs without one (and ignore those that name their server); "
              "proved instead: C13_completes_wellformed_partial (offer's option 54 four bytes => the completing packet "
@@ -39,7 +65,7 @@ CONFIG = dict(
           "and REQUEST/answer pairing, REQUEST contents, rapid-commit path. non-trivial = the script has at least one "
           "reaction; distinct = distinct operation lines"),
     assumptions=[
-        "virtual time (testing/synctest): every scripted datagram arrives at its own instant (offsets 2^i ns), never on a retransmission deadline, and is processed to quiescence before the next",
+        "virtual time (testing/synctest): every scripted datagram arrives at its own instant (offsets 2^i ns), never on a retransmission deadline, and is processed to quiescence before the next (exactly the hypotheses under which C13_call_script proves that the script-level timed model allows one result, the abstract call's; what a coincidence with a deadline can change is C13_call_script_racing)",
         "Go nil and empty non-nil option values are identified in the model (neither MessageType() nor ServerIdentifier() distinguishes them)",
         "the transaction ids drawn by dhcpv4.New / dhcpv6.NewMessage and GetTime() are parameters of the model",
         "the oracle checks field clauses only on calls without user modifiers (completion clauses on all)",
@@ -53,7 +79,14 @@ MANIFEST = dict(
           "the lease exchanges of nclient4 and nclient6 (matchers IsMessageType / IsCorrectServer with net.IP.Equal "
           "semantics / IsAll exactly as coded, DiscoverOffer, RequestFromOffer, Request, Renew, Release, Inform, Solicit, "
           "RapidSolicit, Request) composed from the C15/C16 builder models and an abstract call = first element of the "
-          "routed response stream the matcher accepts. For EVERY response stream (any length, order, multiplicity, any "
+          "routed response stream the matcher accepts; that abstract call is PROVED to be the timed SendAndRead machine of "
+          "C11/C12 run on the routed stream with its arrival instants (refinement C13_call_refines_timed: returned packet = "
+          "find? of the stream at its arrival instant, no-response error at the budget T(2^n-1) otherwise, for every T>0, "
+          "every retry count, any coincidence flags; cancelled/closed, late and unseen-traffic variants; the exchanges run "
+          "on the timed machine equal the abstract ones, C13_exchanges_timed / C13_request_timed; the script-level model "
+          "allows exactly that one result on quiescent scripts, and under races returns find? of the stream minus some "
+          "deadline-coincident packets, C13_call_script / C13_call_script_racing; in the interleaving model a returned packet "
+          "is find? of what was routed to the returning try, C13_call_is_find). For EVERY response stream (any length, order, multiplicity, any "
           "packets), every offer/lease/advertise and every user modifier list: the REQUEST carries the offer's hardware "
           "address, the offered address as option 50, the offer's option 54 verbatim, the offer's transaction id, type "
           "REQUEST and maximum message size 1500 (via the C15 theorems); RequestFromOffer yields a lease or a NAK error "
@@ -71,9 +104,13 @@ MANIFEST = dict(
           "testing/synctest against reactive scripted servers and comparing every transmitted datagram and the "
           "result with the compiled model; an implementation-level oracle re-derives each clause from the wire."),
     design_ref="DESIGN.md section 6 C13",
-    note=NOTE_COMMON + ("The abstract call (first accepted element of the routed stream) stands on C10/C11/C12, not re-proved; "
+    note=NOTE_COMMON + ("The abstract call (first accepted element of the routed stream) is proved to be the timed call machine of "
+                        "C11/C12 on quiescent or coincidence-free arrivals (refinement theorems C13_call_*); under a race with a "
+                        "per-try deadline the script-level model may skip deadline-coincident packets (C13_call_script_racing, "
+                        "C13_call_script_counterexample); the link between the interleaving model and the timed one is per try "
+                        "(C13_call_is_find) and otherwise by the correspondence streams; "
                         "six readings of the property text are proved counterexamples (offer without server identifier, shared "
                         "modifiers in Request, Renew keyed on the offer, Release destination unvalidated, v6 answer of any type, "
                         "REPLY without rapid commit)."),
-    technique="Lean 4 proof (list find? characterisation over an abstract call, C15/C16 builder theorems) + regenerated source-text facts + model/code correspondence under virtual time with reactive scripted servers + clause oracle",
+    technique="Lean 4 proof (list find? characterisation over an abstract call, refinement of that call by the timed call machine of C11/C12, C15/C16 builder theorems) + regenerated source-text facts + model/code correspondence under virtual time with reactive scripted servers + clause oracle",
 )
